@@ -1158,8 +1158,8 @@ def check(run, mods, wd, rnd) -> dict:
     fam = l_family(tier)
     if quick:       # all straight-line programs of <= 2 atoms, a third of the rest
         fam = [p for i, p in enumerate(fam) if (len(p) <= 2 and all(s[0] in ("asg", "ev") for s in p)) or i % 3 == 0]
-    rands = [p for p in (l_rand_prog(rnd) for _ in range(80 if quick else 1500)) if M.well_formed(p)]
-    dets = [p for p in (l_rand_prog(det) for _ in range(80 if quick else 1500)) if M.well_formed(p)]
+    rands = [p for p in (l_rand_prog(rnd) for _ in range(60 if quick else 1500)) if M.well_formed(p)]
+    dets = [p for p in (l_rand_prog(det) for _ in range(60 if quick else 1500)) if M.well_formed(p)]
     progs = [(p, 0, False) for p in fam] + [(p, m, False) for p in fam[:: (17 if quick else 2)] for m in (1, 2)] \
         + [(p, det.choice([0, 0, 1, 2]), False) for p in dets] + [(p, rnd.choice([0, 0, 1, 2]), True) for p in rands]
     n_oracle = 0
@@ -1198,7 +1198,7 @@ def check(run, mods, wd, rnd) -> dict:
         site = ".".join(O_RULES[rid][:2])
         famo = O_FAMILIES[rid](tier)
         if quick:
-            famo = famo[:: max(1, len(famo) // 450)]
+            famo = famo[:: max(1, len(famo) // 330)]
         mods_in = [(m, False) for m in famo]
         mods_in += [(m, False) for m in (o_rand_module(det) for _ in range(n_rand)) if o_wellformed(m)]
         mods_in += [(m, True) for m in (o_rand_module(rnd) for _ in range(n_rand)) if o_wellformed(m)]
@@ -1376,7 +1376,7 @@ def check(run, mods, wd, rnd) -> dict:
                 b, a = run_text(pre + d["source"]), run_text(pre + d["output"])
                 if "<raised" not in b and a != b:
                     searched.append((d["rule"], {**d, "before": b, "after": a, "problem": "found by the failing-input search"}))
-            elif d.get("kind") == "rule-model" and d.get("output"):
+            elif d.get("kind") in ("rule-model", "rule-output-outside-fragment") and d.get("output") and "class C" in d.get("source", ""):
                 b = o_run(d["source"])
                 a = o_run(d["output"])
                 if b[1] == "OOk" and a != b:
@@ -1391,8 +1391,8 @@ def check(run, mods, wd, rnd) -> dict:
     seen_sites = Counter()
     for site, f in failures + searched:
         seen_sites[site] += 1
-        if seen_sites[site] <= int(__import__("os").environ.get("CLS_MAXV", "2")):
-            run.violation({"tranche": TRANCHE, "kind": "property-oracle", "site": site, **f,
+        if seen_sites[site] <= 2:
+            run.violation({"tranche": TRANCHE, **f, "kind": "property-oracle", "site": site,
                            "explanation": "executing the rewritten program gives a different trace / outcome"}, True)
     if not failures and not searched:
         for d in disagreements[:5]:
